@@ -403,7 +403,8 @@ class Model:
             if rel.endswith('tracer/tracer.py'):
                 # the tracer rules read access paths (`F.setitem`, `cls.cgraph`, `F.args[0].x`); the kernels keep their locals (E1/E2 follow them)
                 _canonicalise_paths(tree)
-            _canonicalise_flags(tree)
+            for _ in range(3):          # flags defined from flags (`both = x_is_utpm and y_is_utpm`)
+                _canonicalise_flags(tree)
             _canonicalise_selected_callee(tree)
             mi = ModuleInfo(modname, rel, tree, src)
             self.modules[modname] = mi
